@@ -206,4 +206,4 @@ def check(case: dict) -> dict:
     return {'nontrivial': True, 'classes': classes}
 
 
-ENGINES = [Engine('faults', cases, check, quick=40, thorough=1500, batch=40, fixed_cases=fixed_cases)]
+ENGINES = [Engine('faults', cases, check, quick=120, thorough=2000, batch=60, fixed_cases=fixed_cases)]
